@@ -202,6 +202,7 @@ def _filelevel(ctx, case):
     rng = random.Random(case["aseed"])
     mode = case["aseed"] % 4
     fa = ipref.file_anonymizer(fcfg)
+    seen_v4 = []
     for fam in (4, 6):
         L = 32 if fam == 4 else 128
         B = (fcfg.get("B4") if fam == 4 else fcfg.get("B6")) or 0
@@ -211,6 +212,17 @@ def _filelevel(ctx, case):
         mk = ipaddress.IPv4Address if fam == 4 else ipaddress.IPv6Address
         tokre = _V4TOK if fam == 4 else _V6TOK
         addrs = [a for a in addrs if not (fam == 4 and ipgen.is_mask_ref(a))][:400]
+        if fam == 4:
+            seen_v4 = list(addrs)
+        elif seen_v4:
+            # IPv6 addresses that START with the 32 bits of an IPv4 address the same run has already handled, and their
+            # neighbours in those bits: what was learnt for one family says nothing about the other
+            for a4 in rng.sample(seen_v4, min(8, len(seen_v4))):
+                low = rng.getrandbits(96)
+                addrs.append((a4 << 96) | low)
+                for j in rng.sample(range(32), 6):
+                    addrs.append(((a4 ^ (1 << j)) << 96) | (low if rng.random() < 0.5 else rng.getrandbits(96)))
+            ctx.count("file_level_v6_addresses_sharing_32_bits_with_seen_v4")
         text = "".join(" address %s;\n" % mk(a) for a in addrs)
         if mode == 1:
             # other options of the run that name addresses as TEXT (a reserved-word list) say nothing about the mapping
